@@ -238,11 +238,7 @@ def wide_cases(rng, cfg, seq):
 
 
 def gen(rng, tier):
-    if tier == "thorough":
-        # FromStr on every width 8..8192 (u8 digits): thresholds derived from BITS (seeded change C17-r4m2)
-        for l, t in _ws.parse_print(rng):
-            if l.startswith("from_str "):
-                yield l, t
+    # FromStr on every width 8..8192 (u8 digits): the all-widths sweep `parse_print` is added by check.py (SWEEPS)
     reps = 12 if tier == "thorough" else 6
     seq = [rng.randrange(1000)]      # rotating amount-class counter
 
